@@ -108,8 +108,9 @@ pub fn create_from_variables(
         str: format!("{ident}()").into(),
     };
     let args = args.into_iter().map(InstructionWithStr::from);
-    Ok(zip(function.params.iter(), args)
-        .map(|(param, arg)| {
+    // the function's own name first, then the parameters: a parameter shadows it, as in a direct call
+    Ok(std::iter::once(rec)
+        .chain(zip(function.params.iter(), args).map(|(param, arg)| {
             let str = format!("{} := {}", param.name, arg.str).into();
             InstructionWithStr {
                 instruction: Set {
@@ -119,8 +120,7 @@ pub fn create_from_variables(
                 .into(),
                 str,
             }
-        })
-        .chain(std::iter::once(rec))
+        }))
         .chain(std::iter::once(call))
         .collect())
 }
